@@ -95,15 +95,24 @@ impl RandomProp for SourcesGapped {
     }
     fn strategy(_env: &Env) -> BoxedStrategy<SrcCase> {
         (file_model(6, 3, 5), proptest::collection::vec(1usize..12, 1..6), proptest::collection::vec((1usize..=8, any::<u8>()), 8), 0u8..vlib::io::FAULT_KINDS.len() as u8)
-            .prop_filter_map("at least one record", |(mut model, chunks, fl, kind)| {
+            .prop_map(|(mut model, chunks, fl, kind)| {
                 if model.recs.is_empty() {
-                    return None;
+                    // an empty file has nothing to cut: give it one fixed record instead of rejecting the draw
+                    let ty = if model.ty == Ty::Null { Ty::Point } else { model.ty };
+                    let pts = vec![v4(1.0, 2.0, 3.0, 4.0), v4(2.0, 1.0, 0.0, 5.0), v4(1.0, 2.0, 3.0, 4.0)];
+                    let parts = if ty.family() == Family::Point { vec![Part { kind: 0, pts: pts[..1].to_vec() }] } else { vec![Part { kind: if ty == Ty::Multipatch { 2 } else { 0 }, pts }] };
+                    let g = Geom { ty, parts, bbox: [F(0); 8], m_present: ty.carries_m() }.canon_file();
+                    let keep = model.ty;
+                    model = FileModel::simple(ty, vec![g]);
+                    if keep != Ty::Null {
+                        model.ty = keep;
+                    }
                 }
                 model.trailing.clear();
                 let n = model.recs.len();
                 model.order = (0..n).collect();
                 model.fillers = (0..=n).map(|k| vec![fl[k % fl.len()].1; fl[k % fl.len()].0 * 2]).collect();
-                Some(SrcCase { model, chunks, kind })
+                SrcCase { model, chunks, kind }
             })
             .boxed()
     }
@@ -126,12 +135,21 @@ impl RandomProp for Sources {
             }),
         ];
         (model, proptest::collection::vec(1usize..12, 1..6), 0u8..vlib::io::FAULT_KINDS.len() as u8)
-            .prop_filter_map("at least one record", |(mut model, chunks, kind)| {
+            .prop_map(|(mut model, chunks, kind)| {
                 if model.recs.is_empty() {
-                    return None;
+                    // an empty file has nothing to cut: give it one fixed record instead of rejecting the draw
+                    let ty = if model.ty == Ty::Null { Ty::Point } else { model.ty };
+                    let pts = vec![v4(1.0, 2.0, 3.0, 4.0), v4(2.0, 1.0, 0.0, 5.0), v4(1.0, 2.0, 3.0, 4.0)];
+                    let parts = if ty.family() == Family::Point { vec![Part { kind: 0, pts: pts[..1].to_vec() }] } else { vec![Part { kind: if ty == Ty::Multipatch { 2 } else { 0 }, pts }] };
+                    let g = Geom { ty, parts, bbox: [F(0); 8], m_present: ty.carries_m() }.canon_file();
+                    let keep = model.ty;
+                    model = FileModel::simple(ty, vec![g]);
+                    if keep != Ty::Null {
+                        model.ty = keep;
+                    }
                 }
                 model.trailing.clear();
-                Some(SrcCase { model, chunks, kind })
+                SrcCase { model, chunks, kind }
             })
             .boxed()
     }
